@@ -22,6 +22,9 @@ type ObjSpec struct {
 	Kind string  `json:"kind"` // evaluator | filter
 	Expr string  `json:"expr"`
 	Opts OptSpec `json:"opts"`
+	// CopyOf > 0: the object is a by-value copy (`c := *e`) of shared object
+	// CopyOf-1, made before either of them is used
+	CopyOf int `json:"copy_of,omitempty"`
 }
 
 // An expression is arbitrary bytes (generated patterns may cut a string in the
@@ -33,10 +36,11 @@ type objSpecJSON struct {
 	Expr    string  `json:"expr"`
 	ExprB64 string  `json:"expr_b64,omitempty"`
 	Opts    OptSpec `json:"opts"`
+	CopyOf  int     `json:"copy_of,omitempty"`
 }
 
 func (o ObjSpec) MarshalJSON() ([]byte, error) {
-	j := objSpecJSON{Kind: o.Kind, Expr: o.Expr, Opts: o.Opts}
+	j := objSpecJSON{Kind: o.Kind, Expr: o.Expr, Opts: o.Opts, CopyOf: o.CopyOf}
 	if !utf8.ValidString(o.Expr) {
 		j.Expr = ""
 		j.ExprB64 = base64.StdEncoding.EncodeToString([]byte(o.Expr))
@@ -49,7 +53,7 @@ func (o *ObjSpec) UnmarshalJSON(b []byte) error {
 	if err := json.Unmarshal(b, &j); err != nil {
 		return err
 	}
-	o.Kind, o.Expr, o.Opts = j.Kind, j.Expr, j.Opts
+	o.Kind, o.Expr, o.Opts, o.CopyOf = j.Kind, j.Expr, j.Opts, j.CopyOf
 	if j.ExprB64 != "" {
 		raw, err := base64.StdEncoding.DecodeString(j.ExprB64)
 		if err != nil {
@@ -262,6 +266,11 @@ func (p *SchedPlan) Compact() *SchedPlan {
 			}
 		}
 	}
+	for i, u := range usedObj {
+		if u && q.Objects[i].CopyOf > 0 && q.Objects[i].CopyOf-1 < len(usedObj) {
+			usedObj[q.Objects[i].CopyOf-1] = true // the source of a used copy stays
+		}
+	}
 	objMap := make([]int, len(q.Objects))
 	var objs []ObjSpec
 	var primed []bool
@@ -295,6 +304,15 @@ func (p *SchedPlan) Compact() *SchedPlan {
 			}
 			if o.Datum >= 0 && o.Datum < len(datMap) {
 				o.Datum = datMap[o.Datum]
+			}
+		}
+	}
+	for i := range objs {
+		if c := objs[i].CopyOf; c > 0 {
+			if c-1 < len(objMap) && objMap[c-1] >= 0 {
+				objs[i].CopyOf = objMap[c-1] + 1
+			} else {
+				objs[i].CopyOf = 0
 			}
 		}
 	}
